@@ -1,5 +1,6 @@
 """C01 - Khovanov homology equals the cube-of-resolutions definition (structural necessary conditions only)."""
 import e1_typestate, specs, e12_pairing, e8_formulas, e9_relations, e5_locks
+import e33_scans
 
 LEVEL = 'other'
 EXPLANATION = ('Necessary structural conditions only - the isomorphism with the cube-of-resolutions homology is NOT decided. For every '
@@ -22,6 +23,8 @@ def in_kh(b):
 
 def run(ctx, rep):
     facts = ctx.facts()
+    rep.rule('E33', e33_scans.__doc__.strip().split('\n')[0])
+    e33_scans.run_for(facts, rep, 'Bar-Natan category', ['yui_kh::kh::internal', 'LcCobTrait'], 12)
     import fixtures
     fixtures.run_controls(rep, ['E1', 'E5'], lambda: ctx.reload())
     rep.rule('E1', e1_typestate.__doc__.strip().split('\n')[0])
